@@ -8,7 +8,8 @@ LEVEL = "other"
 from lib.core import existing_modules
 LEAN_MODULES = ["Sonic.Props.C04"]
 REQUIRED_THEOREMS = ["Sonic.Props.C04." + n for n in ["C04_tables", "C04_scan_grammar", "C04_int_kinds", "C04_accumulate", "C04_zero", "C04_fast_exact",
-                                                         "C04_fast_path_correct", "Rne_monotone", "C04_retry_sound", "Rne_spec"]]
+                                                         "C04_fast_path_correct", "Rne_monotone", "C04_retry_sound", "Rne_spec", "C04_el_correct",
+                                                         "C04_el_path_correct"]]
 CONFIGS = [("avx2", "prod"), ("sse", "prod"), ("avx2", "san")]
 CONFIGS_THOROUGH = CONFIGS + [("dyn", "prod"), ("sse", "san")]
 RULE = ("number texts: for every decimal exponent -348..347 (every row of the power-of-ten table) mantissas 1, 2^53-1, 2^53+1, 10^16-1, "
@@ -20,16 +21,18 @@ RULE = ("number texts: for every decimal exponent -348..347 (every row of the po
         "number with a fraction, an exponent or more than 15 digits")
 EXPLANATION = ("Proved in Lean: the power-of-ten tables against exact integer bounds, the scanner grammar, integer kinds, digit accumulation "
                "bounds, zero handling, the exact fast path and retry soundness, and the anchor of the rounding spec (see theorem list in the "
-               "evidence). The Eisel-Lemire / normal-fast / big-decimal cores are NOT proved for all inputs: they are validated per input - "
+               "evidence), and the Eisel-Lemire core for every mantissa and exponent (C04_el_correct: whenever AtofEiselLemire64 answers, the bits are "
+               "the exact round-to-nearest-even of m*10^e; C04_el_path_correct for the el/el2 paths of parseNumber). The normal-fast and "
+               "big-decimal cores are not yet proved for all inputs: they are validated per input - "
                "each result of the run is compared with Spec.Rne (exact round-to-nearest-even with big naturals, itself proved against "
                "the definition) and with the literal Lean models of the five paths (same value, same error code/offset).")
 ASSUMPTIONS = ["hardware (double)uint64, * and / are correctly rounded (modelled as Rne of the exact result)",
                "written exponents of 6 or more digits on texts longer than 100000 characters: known finding F6"]
 TRUSTED = ["Spec.Rne.round (exact big-natural rounding) as oracle; compiled Lean evaluation"]
 LEVEL_TEXT = ("Partial proof + validated per input: table rows, scanner grammar, integer kinds, accumulation, zero and fast-path theorems hold "
-              "for all inputs; the approximate-multiplication cores are checked against an exact reference on every input of the run.")
+              "and the Eisel-Lemire core for all inputs; the normal-fast and big-decimal cores are checked against an exact reference on every input of the run.")
 LEVEL_NOTE = "Trusted: Lean kernel; standard axioms; table translator; IEEE hardware arithmetic; compiled Lean evaluation of the spec."
-TECHNIQUE = "Lean 4 theorems (tables, grammar, kinds, fast path) + exact big-number reference oracle + differential correspondence"
+TECHNIQUE = "Lean 4 theorems (tables, grammar, kinds, fast path, Eisel-Lemire) + exact big-number reference oracle + differential correspondence"
 
 
 def hx(b):
